@@ -38,6 +38,8 @@ def configs(check: Check):
         [mc.T(["a"], ["2.5"])], [mc.T(["A"], ["2.5"])], [mc.T(["A", "B"], ["2.5"])], [mc.T(["A", "B", "a"], ["2.5"])],
         [mc.T(["A"]), mc.T(["A", "B"], ["3"], False)], [mc.T(["a"]), mc.T(["a", "A"]), mc.T(["b", "B"], ["2.5"])],
         [mc.T(["B", "A"])], [mc.T(["b", "a", "A"])], [mc.T(["{a+b}", "C(A)"], ["2.5"])],
+        # several numeric literals in one term: the literal scale is their product
+        [mc.T(["a"], ["2.5", "3"])], [mc.T(["A", "b"], ["2", "1.5"], False)], [mc.T(["a"]), mc.T(["a", "B"], ["3", "0.5"])], [mc.T(["A"], ["2", "4", "1.5"])],
     ]
     # hierarchical families - the shape of `f*g` and `f*g*h`, where a factor is first encoded for its own term and then again,
     # at another rank, for the interaction
